@@ -29,12 +29,13 @@ Record imon2 := mkIMon2 {
   n_last_fault : Z;              (* time of the latest injected fault that hit this instance (-1 none) *)
   n_crashed : bool;
   n_demotes : Z;                 (* demotion callbacks entered *)
-  n_start_t : Z                  (* when the latest Start was accepted *)
+  n_start_t : Z;                 (* when the latest Start was accepted *)
+  n_fault_ops : list Z           (* calls of this instance hit by an injected fault and still in flight *)
 }.
 #[export] Instance eta_imon2 : Settable _ :=
   settable! mkIMon2 <n_att; n_fails; n_okissue; n_lost; n_lost_fault; n_due; n_hrun; n_hdue; n_hdem; n_vals; n_disc; n_reconn;
-                     n_vers; n_disc_prev; n_tk_due; n_last_fault; n_crashed; n_demotes; n_start_t>.
-Definition imon20 := mkIMon2 None 0 0 None false None 0 None None [] None false [] None None (-1) false 0 0.
+                     n_vers; n_disc_prev; n_tk_due; n_last_fault; n_crashed; n_demotes; n_start_t; n_fault_ops>.
+Definition imon20 := mkIMon2 None 0 0 None false None 0 None None [] None false [] None None (-1) false 0 0 [].
 
 Record mst2 := mkM2 { q_i : amap imon2; q_vac : amap Z (* key -> time the record became absent *); q_maxlat : Z }.
 #[export] Instance eta_mst2 : Settable _ := settable! mkM2 <q_i; q_vac; q_maxlat>.
@@ -97,6 +98,10 @@ Definition m2apply (b b' : base) (m0 : mst2) (te : Z * ev) : mst2 :=
           let x2 := if cause =? sHealthFail then x1 <| n_hdem := Some (t, n_demotes x1) |> else x1 in
           (* the claim is gone; what remains due is the demotion callback (kept with the same deadline) *)
           x2) in
+        (* a deposed leader that has just stopped claiming: the vacancy clock restarts (until now the group had a
+           claiming instance; C03 bounds how long such a claim may last) *)
+        let k := ic_key (cfg_of b i) in
+        let m1 := match aget (q_vac m1) k with Some _ => if io_flag (inst_of b i) then m1 <| q_vac ::= fun a => aset a k t |> else m1 | None => m1 end in
         (* validation calls in progress in this goroutine demoted the instance *)
         m2upd m1 i (fun x => x <| n_vals ::= fun a => match aget a gid with Some (tk, wl, sg, _, cb) => aset a gid (tk, wl, sg, true, cb) | None => a end |>)
   | EDemote i gid =>
@@ -114,7 +119,7 @@ Definition m2apply (b b' : base) (m0 : mst2) (te : Z * ev) : mst2 :=
       then m2upd m1 i (fun x => x <| n_vers ::= promote_ver t op |>) else m1
   | ERet i op rk rev val =>
       let m1 := m <| q_maxlat := match aget (b_pend b) op with Some p => Z.max (q_maxlat m) (t - p_t p) | None => q_maxlat m end |> in
-      let m1 := if 10 <=? rk then m2upd m1 i (fun x => x <| n_last_fault := t |>) else m1 in
+      let m1 := if 10 <=? rk then m2upd m1 i (fun x => x <| n_last_fault := t |> <| n_fault_ops ::= zrem op |>) else m1 in
       let x := m2_of m1 i in
       let c := cfg_of b i in
       let m2 :=
@@ -199,7 +204,7 @@ Definition m2apply (b b' : base) (m0 : mst2) (te : Z * ev) : mst2 :=
         | None => m
         end
       else m
-  | EEnvMark code i => if (code =? 1) then m2upd m i (fun x => x <| n_last_fault := t |>) else m
+  | EEnvMark code i op => if (code =? 1) then m2upd m i (fun x => x <| n_last_fault := t |> <| n_fault_ops ::= cons op |>) else m
   | ECrash i => m2upd m i (fun x => x <| n_crashed := true |>)
   | _ => m
   end.
@@ -243,7 +248,10 @@ Definition vacancy_overdue (b : base) (m : mst2) (t : Z) : list alarm :=
     let bound := watch_check_interval + round_jitter_max + 4 * q_maxlat m in
     let cands := filter (fun j => let io := inst_of b j in let x := m2_of m j in
                                   io_started io && negb (io_stopping io) && negb (io_stopped io) && negb (n_crashed x)
-                                  && (n_last_fault x <? tv) && (n_start_t x + bound <? t)) (insts_of_key b k) in
+                                  (* healthy for a whole bound: started, and no injected fault on its calls, since then
+                                     ("after transient failures cease the same bound applies again") *)
+                                  && Nat.eqb (List.length (n_fault_ops x)) 0
+                                  && (Z.max (n_last_fault x) (n_start_t x) + bound <? t)) (insts_of_key b k) in
     when ((tv + bound <? t) && negb (Nat.eqb (List.length cands) 0) && Nat.eqb (List.length (claimants b k)) 0 && negb (live_of b k)) 601)
   (q_vac m).
 
